@@ -364,3 +364,42 @@ PLAN['C10'] = {
     'thorough': lambda seed: runs('h_conc', CONC5, 'asan', 2, 400, case_timeout=300)
                              + runs('h_conc', CONC5, 'tsan', 1, 120, ['--x-delays', '0'], case_timeout=900),
 }
+
+
+# ------------------------------------------------------------------------------------------------ C08: every harness under ASan+UBSan (+ memcheck)
+def c08_runs(scale, memcheck):
+    out = []
+    out += runs('h_grid', STRUCT, 'asan', 1, 10 ** 9, ['--x-random', str(20 * scale), '--x-enumdiv', str(max(1, 64 // scale))], prop='all')
+    out += runs('h_grid', ['trimesh'], 'asan', 1, 150 * scale, prop='all')
+    out += runs('h_flow', FLOW6, 'asan', 1, 500 * scale, prop='all')
+    out += runs('h_hist', FLOW6, 'asan', 1, 60 * scale, prop='all')
+    out += runs('h_erode', FLOW6, 'asan', 1, 500 * scale, prop='all')
+    out += runs('h_conc', CONC5, 'asan', 1, 6 * scale, prop='all', case_timeout=300, group='conc')
+    if memcheck:
+        vg = ['valgrind', '-q', '--error-exitcode=99', '--exit-on-first-error=yes', '--track-origins=no']
+        out += runs('h_grid', ['raster_queen', 'profile_nc', 'trimesh'], 'plain', 1, 10 ** 9,
+                    ['--x-random', '10', '--x-enumdiv', '512'], prop='all', wrapper=vg, case_timeout=900)
+        out += runs('h_flow', FLOW6, 'plain', 1, 150, prop='all', wrapper=vg, case_timeout=900)
+        out += runs('h_hist', ['raster_queen', 'trimesh'], 'plain', 1, 10, prop='all', wrapper=vg, case_timeout=1800)
+        out += runs('h_erode', ['raster_queen', 'trimesh', 'profile'], 'plain', 1, 150, prop='all', wrapper=vg, case_timeout=900)
+    return out
+
+
+PLAN['C08'] = {
+    'rule': 'Every harness of the other properties (h_grid, h_flow, h_hist, h_erode, h_conc; all their generators and operator '
+            'sequences, all 9 grid configurations) executed with --prop all under g++ -fsanitize=address,undefined '
+            '-fno-sanitize-recover=all -D_GLIBCXX_ASSERTIONS without -DNDEBUG (library asserts active), one process per shard, '
+            'a sanitizer / assertion abort attributed to the running case and the process restarted behind it; explicit table-width '
+            'invariants (receivers_count / donors_count within the table widths, indices < N) for intra-object overflow; thorough '
+            'tier adds valgrind memcheck (--exit-on-first-error) on an uninstrumented build with a reduced case count. A case is '
+            'non-trivial when it executed library code on an accepted configuration; distinct = distinct case hashes.',
+    'floor': ['updates', 'c07.accessor_checks', 'c17.filtered_iterations', 'c18.nodes_checked', 'c15.trees_checked',
+              'c09.updates_compared_with_fresh_graph', 'c16.graph_snapshots_compared', 'c20.executed', 'spl.steps', 'c14.steps',
+              'c11.dispatches', 'c10.parallel_kernels_compared'],
+    'assumptions': ['only executed paths are covered; red-zone tools miss intra-object overflows other than the table-width '
+                    'invariants checked explicitly', 'XTENSOR_ENABLE_ASSERT is deliberately off (flat indexing of N-d containers '
+                    'is in-bounds for the buffer)', 'no MemorySanitizer (uninstrumented libstdc++)'],
+    'max_parallel': 16,
+    'quick': lambda seed: c08_runs(1, False),
+    'thorough': lambda seed: c08_runs(12, True),
+}
